@@ -194,7 +194,7 @@ class FilterProp:
         for _ in range(n_filter):
             tzname = rnd.choice(zs)
             set_tz(tzname)
-            f = gen_filter(rnd)
+            f = gen_filter(rnd, empty_any=True)
             fo = build_filter(f)
             base = rnd.randrange(946_684_800, 946_684_800 + 28 * 365 * 86400)
             pts = [(base + k * rnd.choice([3600, 86400, 7 * 86400 + 1800, 3 * 3600 + 59])) * NS_S + rnd.choice([0, 0, 999_999_999])
